@@ -181,7 +181,8 @@ def oracle(sc, res):
             return f"probe at +{ms - t0} is not a single QU PTR question for {T}: {qs}"
         if len(auth) != 1 or auth[0].type != 12 or auth[0].name != T or m.num_authorities != 1:
             return f"probe at +{ms - t0} does not carry the proposed pointer in the authority section"
-        if taken(auth[0].alias, ms, strictly_before=True):
+        # (records arriving at the very instant of the probe may have been processed before or after it: taken under both orders)
+        if taken(auth[0].alias, ms, strictly_before=True) and taken(auth[0].alias, ms):
             return f"probe for {auth[0].alias!r} sent at +{ms - t0} although the cache already held an unexpired pointer for that name"
     # --- the sequence of names probed: base, then -2, -3, ... each abandoned name taken when it was abandoned ---
     seq = []
@@ -199,7 +200,7 @@ def oracle(sc, res):
             return f"{final!r} registered after probes at {[t - t0 for t in ts]} (+ms): not three probes 175 ms apart"
         if len(ts) > 3:
             return f"more than three probes for the name that was registered: {[t - t0 for t in ts]}"
-        if taken(final, ts[-1], strictly_before=True):
+        if taken(final, ts[-1], strictly_before=True) and taken(final, ts[-1]):
             return f"{final!r} registered although an unexpired pointer for it was in the cache before the last probe check"
         # numbering: the final name is the base or base-N; every name before it in the chain was either probed and abandoned or skipped,
         # and each of them was taken at some instant of the check
